@@ -15,9 +15,9 @@ ID = "C19"
 LEVEL = "exploration"
 TIERS = {"quick": {"runs": 6400, "wall_cap": 600}, "thorough": {"runs": 160000, "wall_cap": 3300}}
 RULE = (
-    "each evaluation is one seeded history (<=25 quick / <=50 thorough operations: append, +=, c[i]=v, del c[i] for 0<=i<=len, clear, len, "
+    "each evaluation is one seeded history (<=25 quick / <=50 thorough operations: append, += (a list, the collection itself, an iterable that raises midway), c[i]=v, del c[i] for -len-1<=i<=len, clear, len, "
     "list, c[i], index, in) on a Collection (BNode or IRI head, start length 0-4 built through the API or as raw triples, noise triples and a "
-    "second unrelated list in the same graph), compared op by op with a Python list, plus rdf:first/rdf:rest chain well-formedness after "
+    "second unrelated list in the same graph, one or two Collection objects over Graph / Dataset / ConjunctiveGraph graphs, optionally a counting store subscriber), compared op by op with a Python list, plus rdf:first/rdf:rest chain well-formedness after "
     "every mutation; in fault runs the chain is corrupted at a seeded point and all later reads run under a line-event budget; distinct = "
     "distinct trace digest; non-trivial = at least 3 effective mutations or a fired corruption fault followed by reads"
 )
